@@ -180,6 +180,7 @@ inline int cons_in_hull(int n, const Sys& C, const Gens& G, Vec* wit, std::strin
   // enumerate n-subsets of rows of A2 (tight) -> vertices
   // count combinations
   double comb = 1; for (int i = 0; i < n; ++i) comb = comb * (m2 - i) / (i + 1);
+  if (n >= 5 && max_comb > 30000) max_comb = 30000;   // keep high-dimensional checks cheap
   if (comb > (double) max_comb) { ++dd_stats().skipped; return -1; }
   std::vector<Vec> verts; std::vector<Vec> rays;
   std::vector<int> idx(n);
